@@ -36,9 +36,8 @@ Detail(r, c) ==
     ELSE IF c \in DriftNames THEN "model"
     ELSE IF r.isMember THEN "member" ELSE "absent"
 
-Rejected == { <<Obs[q[1]].id, q[2], Detail(Obs[q[1]], q[2])>> :
-                 q \in { q \in Idx \X (ClauseNames \cup DriftNames) :
-                           IF q[2] \in ClauseNames THEN ~Clause(Obs[q[1]], q[2]) ELSE ~Drift(Obs[q[1]], q[2]) } }
+Failing(r) == {c \in ClauseNames : ~Clause(r, c)} \cup {c \in DriftNames : ~Drift(r, c)}
+Rejected == UNION { {<<Obs[i].id, c, Detail(Obs[i], c)>> : c \in Failing(Obs[i])} : i \in Idx }
 
 Exercised == [c \in ClauseNames \cup {"MemberFound_viaIndex", "SizeModel"} |->
                  IF c = "MemberFound_viaIndex"
